@@ -21,10 +21,11 @@ None of these tolerances depends on the number of inserted zero columns, on the 
 Families added for the thresholds of the code under test (everything an aggregator compares against a constant must be
 a function of J J^T and must not depend on the layout):
   'thr'   (orthogonal) wide matrices, n in {16, 32, 64}, with conflicting rows, rescaled so that the largest singular
-          value is threshold * 10^U(-1, 2.5) for threshold in {norm_eps = 1e-4, 100 norm_eps}: around the guard of the
-          normalised Gramian and where every ENTRY is below it while sigma_max is above; Q is Haar or a Householder
-          reflection that maps a row of J onto a coordinate axis (concentrates the row in one entry) or the converse
-          (spreads an axis-aligned... see `_q`).  Cases with |sigma_max/norm_eps - 1| <= 64 (m+n) eps are outside (the
+          value is threshold * 10^U(-1, 2.5) (half of the cases: 10^U(-0.3, 0.7)) for threshold in {norm_eps, 100
+          norm_eps}, norm_eps as configured in {1e-6, 1e-4, 1e-2} for UPGrad / DualProj / CAGrad: around the guard of
+          the normalised Gramian and where every ENTRY is below it while sigma_max is above; Q is Haar or a Householder
+          reflection that maps a row of J onto a coordinate axis (concentrates the row in one entry) or the first axis
+          onto a random direction (see `_q`).  Cases with |sigma_max/norm_eps - 1| <= 64 (m+n) eps are outside (the
           guard may fall on either side by rounding).
   'wide'  (all transformation clauses) scale log-uniform over 1e-12..1e12.
   'many'  (zerocol) 300 / 3000 / 20000 zero columns appended, prepended or split around the matrix, condition numbers
@@ -77,8 +78,10 @@ def _thr_spec(rng, agg):
     name = agg["name"]
     m_min = 4 if name == "Krum" else 2
     n = rng.choice([16, 32, 64])
-    thr = rng.choice([1e-4, 1e-4, 1e-2])
-    smax = thr * 10.0 ** rng.uniform(-1.0, 2.5)
+    # the guard of the aggregator itself when it has one (norm_eps, as configured), else the default constants
+    thr = agg["norm_eps"] * rng.choice([1.0, 1.0, 1.0, 100.0]) if "norm_eps" in agg else rng.choice([1e-4, 1e-4, 1e-2])
+    # half of the cases within [thr/2, 5 thr]: with n >= 16 columns every entry is below thr while sigma_max is not
+    smax = thr * 10.0 ** (rng.uniform(-0.3, 0.7) if rng.random() < 0.5 else rng.uniform(-1.0, 2.5))
     if name in PINV_BASED:
         return {"kind": "wellcond", "m": rng.randint(2, 5), "n": n, "seed": rng.randrange(10**9),
                 "cond": rng.choice([1.0, 3.0, 30.0]), "smax": smax, "dtype": "float64"}
@@ -160,7 +163,10 @@ def cases(tier, seed, focus=None):
     # ---- families around the thresholds of the code under test (own random stream: the cases above are unchanged)
     rng = random.Random(80800 + seed)
     for agg in GRAM_AGGS:
-        for j in range(40 if thorough else 8):  # threshold family
+        guarded = agg["name"] in ("UPGrad", "DualProj", "CAGrad")
+        for j in range((80 if guarded else 40) if thorough else (16 if guarded else 8)):  # threshold family
+            if guarded:  # the guard follows the configured norm_eps
+                agg = dict(agg, norm_eps=rng.choice([1e-4, 1e-4, 1e-2, 1e-6]))
             out.append({"clause": "orthogonal", "agg": agg, "matrix": _thr_spec(rng, agg),
                         "q": ["haar", "house_row", "house_row", "house_axis"][j % 4], "qrow": rng.randrange(6),
                         "qseed": rng.randrange(10**6), "rseed": rng.randrange(10**6)})
@@ -169,16 +175,23 @@ def cases(tier, seed, focus=None):
                         "q": rng.choice(["haar", "house_row"]), "qrow": rng.randrange(6),
                         "qseed": rng.randrange(10**6), "rseed": rng.randrange(10**6)})
     for agg in LAYOUT_AGGS:
-        slow = agg["name"] in ("NashMTL",)
+        if agg["name"] == "NashMTL":
+            # NashMTL gets none of the new families.  Its outer loop stops as soon as |G a - 1/a| < 1e-3, so the result
+            # is only accurate to that criterion and the number of outer iterations can change with the ROUNDING of
+            # J J^T (thousands of zero columns change the blocking of the product; measured: 3e-3 relative on a 5x5
+            # matrix of condition number 30) - no tolerance tighter than the stop criterion can be derived - and its
+            # ECOS problem contains log(alpha |J J^T|), so its success depends on the scale (see _matrix_spec).
+            continue
         for j in range(8 if thorough else 3):  # many zero columns (parameters that influence nothing)
-            spec = _matrix_spec(rng, agg, "zerocol", cond=rng.choice([3.0, 30.0, 100.0]), wide=(j % 3 == 2))
-            count = [20000, 3000, 300][j % 3] if not slow else [3000, 300, 20000][j % 3]
+            count = [20000, 3000, 300][j % 3]
+            # the largest count goes with the worst conditioning whose rank is still unambiguous (most sensitive probe
+            # of a tolerance that grows with the number of columns)
+            cond = rng.choice([30.0, 100.0]) if count == 20000 else rng.choice([3.0, 30.0, 100.0])
+            spec = _matrix_spec(rng, agg, "zerocol", cond=cond, wide=(j % 3 == 2))
             where = rng.choice(["end", "start", "split"])
             blocks = {"end": [[spec["n"], count]], "start": [[0, count]],
                       "split": [[0, count // 2], [rng.randint(0, spec["n"]), count - count // 2]]}[where]
             out.append({"clause": "zerocol", "agg": agg, "matrix": spec, "blocks": blocks, "rseed": rng.randrange(10**6)})
-        if agg["name"] == "NashMTL":
-            continue  # see _matrix_spec: no wide scales for NashMTL
         for _ in range(6 if thorough else 1):
             spec = _matrix_spec(rng, agg, "colperm", wide=True)
             out.append({"clause": "colperm", "agg": agg, "matrix": spec, "perm": rng.sample(range(spec["n"]), spec["n"]),
